@@ -66,6 +66,12 @@ pub enum Event {
     /// shell event: `update` runs the program through the legacy capability API
     StartLegacy(Box<Cmd>),
     Noop,
+    /// shell event: like `Start`, but from now on the scripts of every program this app builds
+    /// talk to the shell through the *capability* contexts (legacy futures awaited inside
+    /// Command tasks: a half-migrated app)
+    StartMixed(Box<Cmd>),
+    /// shell event: `update` aborts the command registered under this handle
+    Cancel(u32),
 }
 
 impl Event {
@@ -203,12 +209,38 @@ impl LabEffect for d::Effect {
 // ---------------------------------------------------------------------------
 
 pub static UPDATE_REENTERED: AtomicU64 = AtomicU64::new(0);
+
+/// Emission log (off by default): every event a script hands to `send_event` / `update_app`,
+/// in emission order. Lets a monitor check conservation (emitted = applied) without a model.
+pub static EMIT_LOG_ON: AtomicBool = AtomicBool::new(false);
+pub static EMIT_LOG: Mutex<Vec<(u32, u64)>> = Mutex::new(Vec::new());
+
+pub fn log_emission(ev: &Event) {
+    if EMIT_LOG_ON.load(Ordering::Relaxed) {
+        if let Event::Out { tag, val, .. } = ev {
+            EMIT_LOG.lock().unwrap().push((*tag, *val));
+        }
+    }
+}
 pub static UPDATES: AtomicU64 = AtomicU64::new(0);
 
 #[derive(Default)]
 pub struct Model {
     pub log: Vec<Logged>,
     pub in_update: AtomicBool,
+    pub mixed: bool,
+}
+
+pub type MixedCaps = (CapabilityContext<Op, Event>, CapabilityContext<Sig, Event>);
+
+thread_local! {
+    /// capability contexts scripts use instead of the command context while a "mixed" app is
+    /// building a program (set for the duration of `update` only)
+    static MIXED_CAPS: std::cell::RefCell<Option<MixedCaps>> = const { std::cell::RefCell::new(None) };
+}
+
+pub fn mixed_caps() -> Option<MixedCaps> {
+    MIXED_CAPS.with(|m| m.borrow().clone())
 }
 
 #[derive(Serialize, Deserialize, Clone, Debug, PartialEq, Eq, Default)]
@@ -226,6 +258,13 @@ fn apply<Ef: LabEffect>(
         UPDATE_REENTERED.fetch_add(1, Ordering::SeqCst);
     }
     UPDATES.fetch_add(1, Ordering::Relaxed);
+    if matches!(event, Event::StartMixed(_)) {
+        model.mixed = true;
+    }
+    if model.mixed {
+        let caps = legacy.expect("StartMixed needs the derive app");
+        MIXED_CAPS.with(|m| *m.borrow_mut() = Some((caps.op.context.clone(), caps.sig.context.clone())));
+    }
     let cmd = match event {
         Event::Out {
             tag,
@@ -239,14 +278,19 @@ fn apply<Ef: LabEffect>(
                 None => Command::done(),
             }
         }
-        Event::Start(c) => crate::build::build::<Ef>(&c),
+        Event::Start(c) | Event::StartMixed(c) => crate::build::build::<Ef>(&c),
         Event::StartLegacy(c) => {
             let caps = legacy.expect("StartLegacy needs the derive app");
             crate::build::start_legacy(&c, caps);
             Command::done()
         }
         Event::Noop => Command::done(),
+        Event::Cancel(h) => {
+            call_abort(h);
+            Command::done()
+        }
     };
+    MIXED_CAPS.with(|m| *m.borrow_mut() = None);
     model.in_update.store(false, Ordering::SeqCst);
     cmd
 }
